@@ -5,7 +5,7 @@ git -C /repo status --short | grep -q . && { echo "/repo not clean"; exit 2; }
 # evidence written while /repo is modified must not replace the evidence of the unchanged tree
 rm -rf /tmp/evidence.keep; cp -r /verif/evidence /tmp/evidence.keep
 trap 'rm -rf /verif/evidence; mv /tmp/evidence.keep /verif/evidence' EXIT
-for d in seeded/*/; do
+for d in seeded/${1:-}*/; do
   id=$(basename $d); prop=${id%%-*}
   git -C /repo apply /verif/$d/patch.diff || { echo "$id: patch does not apply"; continue; }
   s=$(date +%s)
